@@ -11,6 +11,15 @@ from . import lib as _lib
 from .lib import CIF_OK, CIF_EMPTY_LOOP, HarnessError
 
 
+def canon(v):
+    """table entries sorted by key: enumeration order of a table is unspecified"""
+    if v[0] == 'list':
+        return ('list', tuple(canon(e) for e in v[1]))
+    if v[0] == 'table':
+        return ('table', tuple(sorted(((k, canon(e)) for k, e in v[1]), key=lambda kv: kv[0])))
+    return v
+
+
 class DumpError(Exception):
     """a query needed for the dump failed: (function, rc)"""
     def __init__(self, fn, rc):
@@ -51,6 +60,7 @@ def dump_loop(L, loop, numbers=False):
                     pv = L.read_value(v)
                     if numbers:
                         pv = with_numbers(L, v, pv)
+                    pv = canon(pv)
                     items.append((n, pv))
                 items.sort(key=lambda kv: kv[0])
                 packets.append(tuple(items))
